@@ -1,5 +1,6 @@
 """Helpers shared by the scenarios."""
 import math
+import os
 import warnings
 
 import numpy as np
@@ -147,6 +148,8 @@ def sample_prefix(rng, cfg, max_len=4, p_any=0.35, allow_path=True, allow_mutate
     if fam.get("sparse") and cfg["d"] >= 2 and allow_path:
         kinds += [("path", 1.5), ("crash_path", 1), ("nan_path", 1)]
     ops = []
+    if os.environ.get("GEMSIM_TIER") == "thorough" and rng.random() < 0.3:
+        max_len = 3 * max_len          # the thorough tier explores longer histories
     for _ in range(rng.randint(1, max_len)):
         k = weighted(rng, kinds)
         if ops and ops[-1]["op"] in ("set_params", "mutate_data", "crash_fit") and rng.random() < 0.4:
